@@ -177,3 +177,38 @@ class Poly:
             return '0'
         items = sorted(self.t.items(), key=lambda kv: (sum(e for _, e in kv[0]), kv[0]))
         return ' + '.join('%s%s' % (c, ''.join('*%s^%d' % ve for ve in m)) for m, c in items[:12]) + (' + ...' if len(items) > 12 else '')
+
+
+def z3_to_poly(t, _cache=None):
+    """debug/replay helper: expand a z3 real polynomial term into a Poly (variables named by their z3 names)"""
+    import z3
+    if _cache is None:
+        _cache = {}
+    k = t.get_id()
+    if k in _cache:
+        return _cache[k]
+    if z3.is_rational_value(t):
+        r = Poly.const(Fraction(t.numerator_as_long(), t.denominator_as_long()))
+    elif z3.is_int_value(t):
+        r = Poly.const(t.as_long())
+    elif z3.is_add(t):
+        r = Poly()
+        for c in t.children():
+            r = r + z3_to_poly(c, _cache)
+    elif z3.is_mul(t):
+        r = Poly.const(1)
+        for c in t.children():
+            r = r * z3_to_poly(c, _cache)
+    elif z3.is_sub(t):
+        ch = t.children()
+        r = z3_to_poly(ch[0], _cache)
+        for c in ch[1:]:
+            r = r - z3_to_poly(c, _cache)
+    elif z3.is_app_of(t, z3.Z3_OP_UMINUS):
+        r = -z3_to_poly(t.arg(0), _cache)
+    elif z3.is_const(t):
+        r = Poly.var(t.decl().name())
+    else:
+        raise ValueError('z3_to_poly: unsupported term %s' % t.decl().name())
+    _cache[k] = r
+    return r
